@@ -165,6 +165,51 @@ impl Profile {
                 ops_per_txn: 8,
                 ..base
             },
+            // fragmentation, then compaction: few readers / savepoints so that compact() is not refused
+            "compact" => Profile {
+                names: vec!["a", "b", "c"],
+                multimaps: true,
+                w_catalog: 4,
+                w_savepoint: 2,
+                w_reader: 2,
+                w_nondurable: 30,
+                w_abort: 10,
+                w_reopen: 2,
+                w_compact: 10,
+                w_integrity: 2,
+                ops_per_txn: 14,
+                w_acct: 50,
+                ..base
+            },
+            "crashcompact" => Profile {
+                names: vec!["a", "b"],
+                multimaps: true,
+                w_catalog: 4,
+                w_savepoint: 0,
+                w_reader: 0,
+                w_nondurable: 30,
+                w_abort: 10,
+                w_reopen: 2,
+                w_compact: 12,
+                ops_per_txn: 10,
+                ..base
+            },
+            // reopen often, look at the allocation state right after every open
+            "reopen" => Profile {
+                names: vec!["a", "b", "c"],
+                multimaps: true,
+                w_catalog: 4,
+                w_savepoint: 8,
+                w_reader: 3,
+                w_nondurable: 35,
+                w_abort: 15,
+                w_reopen: 12,
+                w_compact: 2,
+                w_integrity: 6,
+                ops_per_txn: 10,
+                w_acct: 30,
+                ..base
+            },
             "pages" => Profile {
                 names: vec!["a", "b", "c"],
                 multimaps: true,
@@ -781,6 +826,9 @@ impl Gen {
                     self.pop.clear();
                 }
                 "reopen" | "crash" => {
+                    if self.p.w_acct > 0 {
+                        self.queue.push_back(json!({"e": "acct"}));
+                    }
                     self.wtx = false;
                     self.open.clear();
                     self.readers.clear();
